@@ -261,7 +261,19 @@ func c10R3(r *Report) {
 					continue
 				}
 				pb := x.Block().Preds[i]
-				if !incompleteAt(pb, nil) && !incompleteAt(x.Block(), pb) {
+				if incompleteAt(pb, nil) || incompleteAt(x.Block(), pb) {
+					continue
+				}
+				// the value is itself tested false on the way to this edge (`if want && Complete(i) { want = false }`:
+				// the edge that skips the Complete test is the one on which want is false)
+				knownFalse := false
+				for _, g := range append(append([]Guard{}, guardsOf(pb)...), edgeGuard(pb, x.Block())...) {
+					g = g.norm()
+					if g.Cond == e && !g.Pol {
+						knownFalse = true
+					}
+				}
+				if !knownFalse {
 					okW = false
 				}
 			}
@@ -323,43 +335,79 @@ func c10R4(r *Report) {
 		r.Fail("R4", "Reader.request/rebuild", req.Pos(), "Reader.request no longer rebuilds its list of requested pieces")
 		return
 	}
-	// (b) the previous list is withdrawn on every path after the rebuild
-	var withdraw *ssa.Call
-	for _, ci := range callsIn(req) {
-		c, ok := ci.(*ssa.Call)
+	// (b) the previous list is withdrawn on every path after the rebuild: by a loop of Request(index, prio, false, false)
+	// in Reader.request itself, or in a helper of package tor that Reader.request calls (withdraw(old))
+	isWithdrawReq := func(in ssa.Instruction) bool {
+		c, ok := in.(*ssa.Call)
 		if !ok || c.Call.StaticCallee() != treq {
-			continue
+			return false
 		}
 		b2, ok2 := constBool(c.Call.Args[3])
 		b3, ok3 := constBool(c.Call.Args[4])
-		if ok2 && ok3 && !b2 && !b3 {
-			withdraw = c
-		}
+		return ok2 && ok3 && !b2 && !b3
 	}
-	if withdraw == nil {
-		r.Fail("R4", "Reader.request/withdraw-old", req.Pos(), "Reader.request no longer withdraws the previously requested pieces (Request(index, prio, false, false))")
-	} else {
-		// the withdraw loop's header dominates every return that follows the rebuild
-		var header *ssa.BasicBlock
-		for _, g := range guardsOf(withdraw.Block()) {
-			if g.Pol {
-				if bo, ok := g.Cond.(*ssa.BinOp); ok && bo.Op == token.LSS {
-					header = g.If.Block()
-					break
-				}
-			}
-		}
-		okAll := header != nil
-		for _, ret := range returnsOf(req) {
-			if !instrReaches(rebuild, ret) {
+	// loopHeaderOf: the header of the innermost loop containing in (the If whose edge dominates it and whose block it can reach back)
+	loopHeaderOf := func(in ssa.Instruction) *ssa.BasicBlock {
+		for _, g := range guardsOf(in.Block()) {
+			if g.If == nil {
 				continue
 			}
-			if header == nil || !header.Dominates(ret.Block()) {
-				okAll = false
+			h := g.If.Block()
+			if reachableFromSuccs(in.Block())[h] {
+				return h
 			}
 		}
-		// and the loop ranges over the list as it was before the rebuild
-		r.Check(okAll, "R4", "Reader.request/withdraw-old-on-every-path", withdraw.Pos(), "after rebuilding its list the reader withdraws the whole previous list on every path", "a path returns after the reader rebuilt its list without passing the loop that withdraws the previous list: those priorities are never withdrawn")
+		return nil
+	}
+	var withdrawPos ssa.Instruction
+	var header *ssa.BasicBlock
+	var helperCall ssa.Instruction
+	if w := anyInstr(req, isWithdrawReq); w != nil {
+		withdrawPos = w
+		header = loopHeaderOf(w)
+	} else {
+		for _, ci := range callsIn(req) {
+			c, ok := ci.(*ssa.Call)
+			if !ok {
+				continue
+			}
+			h := c.Call.StaticCallee()
+			if h == nil || h.Blocks == nil || relPkg(h) != "tor" || h == treq {
+				continue
+			}
+			w := anyInstr(h, isWithdrawReq)
+			if w == nil {
+				continue
+			}
+			// the helper withdraws the whole list it is given: the Request sits in a loop whose header every
+			// return of the helper passes
+			hh := loopHeaderOf(w)
+			good := hh != nil
+			for _, ret := range returnsOf(h) {
+				if hh == nil || !hh.Dominates(ret.Block()) {
+					good = false
+				}
+			}
+			if good {
+				r.Fn(h)
+				withdrawPos, helperCall = c, c
+			}
+		}
+	}
+	if withdrawPos == nil {
+		r.Fail("R4", "Reader.request/withdraw-old", req.Pos(), "Reader.request no longer withdraws the previously requested pieces (Request(index, prio, false, false))")
+	} else {
+		passes := func(in ssa.Instruction) bool {
+			if helperCall != nil {
+				return in == helperCall
+			}
+			return header != nil && in.Block() == header
+		}
+		okAll := helperCall != nil || header != nil
+		if okAll && len(exitsAvoiding(rebuild, passes, false)) > 0 {
+			okAll = false
+		}
+		r.Check(okAll, "R4", "Reader.request/withdraw-old-on-every-path", withdrawPos.Pos(), "after rebuilding its list the reader withdraws the whole previous list on every path", "a path returns after the reader rebuilt its list without passing the loop that withdraws the previous list: those priorities are never withdrawn")
 	}
 	// (c) the same-piece shortcut cannot swallow a withdrawal
 	pos := req.Params[1]
